@@ -15,6 +15,32 @@ theorem cumSt_append (op : Int → Int → Int) : ∀ (xs ys : List (Nat × Opti
   | (_, none) :: xs, ys, st => by simp [cumSt, cumSt_append op xs ys st]
   | (k, some v) :: xs, ys, st => by simp [cumSt, cumSt_append op xs ys _]
 
+theorem cumSt_is_last (op : Int → Int → Int) (k : Nat) : ∀ (rows : List (Nat × Option Int)) (st : St),
+    cumSt op st rows k = (cumLastLit op st rows k).or (st k)
+  | [], st => by simp [cumSt, cumLastLit, cumGo]
+  | (k', none) :: rs, st => by
+    have ih := cumSt_is_last op k rs st
+    simp only [cumSt, cumLastLit, cumGo, List.zip_cons_cons, List.filterMap_cons] at ih ⊢
+    rw [ih]
+    by_cases h : k' = k <;> simp [h]
+  | (k', some v) :: rs, st => by
+    have ih := cumSt_is_last op k rs (stSet st k' (cumStep op (st k') v))
+    simp only [cumSt, cumLastLit, cumGo, List.zip_cons_cons, List.filterMap_cons] at ih ⊢
+    rw [ih]
+    by_cases h : k' = k
+    · subst h
+      simp only [beq_self_eq_true, if_true, stSet, List.getLast?_cons]
+      cases (List.filterMap _ _).getLast? <;> simp
+    · have h2 : (k' == k) = false := by simp [h]
+      have h3 : ¬ k = k' := fun e => h e.symm
+      simp [h2, stSet, h3]
+
+/-- `cum_last` of a partition is the last non-NA cumulative value of every group (what `M.last` returns) -/
+theorem cumLast_is_last (op : Int → Int → Int) (rows : List (Nat × Option Int)) (k : Nat) :
+    cumLast op rows k = cumLastLit op stEmpty rows k := by
+  unfold cumLast
+  rw [cumSt_is_last]
+  simp [stEmpty]
 /-- shift a cumulative cell by the value carried in for the group -/
 def shiftBy (op : Int → Int → Int) (base : St) (r : Nat × Option Int) (c : Option Int) : Option Int :=
   c.map fun x => match base r.1 with
